@@ -14,7 +14,8 @@ Local Open Scope N_scope.
 (* (1) step form: whenever an event makes connection k authenticated as client x (it was not before), the event is a
    handshake message on that same connection k, from an address that is neither banned nor blacklisted, and
    either the server just issued x as a brand-new identity, or the message names x, x is known and not expired,
-   and the response equals hmac (stored secret of x) (the challenge pending on k). *)
+   the stored credential of x decrypts to a secret (stored = CKey sec),
+   and the response equals hmac sec (the challenge pending on k). *)
 Theorem C03_auth_step_justified :
   forall hmac v s e k x, wf s ->
   authed_as (fst (step hmac MaxFailures PermanentBanAt v s e)) k x ->
@@ -39,6 +40,15 @@ Theorem C03_unknown_or_expired_never_authenticated :
   authed_as (fst (step hmac MaxFailures PermanentBanAt v s e)) k x -> authed_as s k x.
 Proof. intros hmac. exact (unknown_or_expired_never_authenticated hmac MaxFailures PermanentBanAt). Qed.
 Print Assumptions C03_unknown_or_expired_never_authenticated.
+
+(* a client whose stored credential gives the server no usable secret (SecretKeyEncrypted empty, not base64,
+   not decryptable, or sealed under another master key) is never newly authenticated — whatever response is sent,
+   whichever client the challenge was requested for *)
+Theorem C03_no_usable_secret_never_authenticated :
+  forall hmac v s e k x cl, wf s -> clients s x = Some cl -> secret_of (stored cl) = None ->
+  authed_as (fst (step hmac MaxFailures PermanentBanAt v s e)) k x -> authed_as s k x.
+Proof. intros hmac. exact (no_usable_secret_never_authenticated hmac MaxFailures PermanentBanAt). Qed.
+Print Assumptions C03_no_usable_secret_never_authenticated.
 
 (* (3) a handshake message whose outcome is not Success (failed, replayed, out of order, malformed, phase 1)
    leaves "who is authenticated as whom" of EVERY connection, the whole registry and the client table unchanged *)
